@@ -24,6 +24,7 @@ from typing import Generic
 from typing import TypeVar
 
 from docstring_inheritance import GoogleDocstringInheritanceMeta
+from numpy import atleast_1d
 from numpy import dtype
 from numpy import eye
 from scipy.sparse.linalg import LinearOperator
@@ -344,7 +345,8 @@ class _ComposedOperationArrayOperator(
         Args:
             x: The vector to apply the transpose of ∂f/∂v to.
         """  # noqa: D205 D212
-        return self._operand_2.rmatvec(self._operand_1.T @ x)  # type:ignore[no-any-return]
+        # The product of a sparse array with a vector may be 0-dimensional (1x1 COO array).
+        return self._operand_2.rmatvec(atleast_1d(self._operand_1.T @ x))  # type:ignore[no-any-return]
 
 
 class _ComposedOperationOperatorOperator(
@@ -377,7 +379,8 @@ class _ComposedOperationOperatorArray(
         Args:
             x: The vector to apply the transpose of ∂f/∂v to.
         """  # noqa: D205 D212
-        return self._operand_1.matvec(self._operand_2 @ x)  # type:ignore[no-any-return]
+        # The product of a sparse array with a vector may be 0-dimensional (1x1 COO array).
+        return self._operand_1.matvec(atleast_1d(self._operand_2 @ x))  # type:ignore[no-any-return]
 
     def _rmatvec(self, x: RealArray) -> RealArray:
         """
